@@ -125,6 +125,7 @@ type c3Scenario struct {
 	ColsDesc bool // spark-trunc: --sort-cols text:reverse
 	Missing   int  // paths on the command line that do not exist (every variant names as many): read errors, exit status 2
 	NoMatcher bool // no -m/-d on the command line: every line matches as a whole ({0})
+	RecordTerm bool // keep every screen line the program writes (intermediate renders), see c13Screens
 	OneByOne bool // equality only demanded between 1-reader-1-worker variants (not used by the order-insensitive commands)
 }
 
@@ -640,6 +641,7 @@ func c3RunVariant(rc *RunCtx, sc *c3Scenario, v *c3Variant) *c3Out {
 		args = append(args, "-")
 	}
 	opts := simrt.Opts{MaxSteps: 600000, IdleLimit: time.Hour, MapSalt: v.Salt}
+	opts.RecordTerm = sc.RecordTerm && rc.Mode != simrt.ModeFree
 	if v.ScanBuf > 0 {
 		opts.Knobs = map[string]int{"rare/pkg/extractor/batchers.ReadAheadBufferSize": v.ScanBuf}
 	}
